@@ -6,7 +6,7 @@ TECHNIQUE = "switch-table extraction from MIR compared with the format's escape 
 EXPLANATION = ("Extracts from gix_quote::ansi_c::undo the table `escape character -> byte pushed` and requires it to be exactly git's "
                "quote_c_style set (a b t n v f r \" \\ with their C values), that the octal branch is entered for exactly '0'..'3', hands a text of constant length 3 "
                "(LIN) to the radix-8 parser, and that every other escape byte reaches the UnsupportedEscapeByte error. "
-               "undo() contains no reverse byte search (the closing quote is the first unescaped one; positive control elsewhere). The consumed-byte count for all inputs is a value property and is not decided.")
+               "undo() contains no reverse byte search (the closing quote is the first unescaped one; positive control elsewhere). Constant increments of `consumed` happen only behind a successful probe of the input, so the count never exceeds the input; its exact value for all inputs is a value property and is not decided.")
 SPEC = {ord("n"): 10, ord("r"): 13, ord("t"): 9, ord("a"): 7, ord("b"): 8, ord("v"): 11, ord("f"): 12, ord('"'): 34, ord("\\"): 92}
 
 
